@@ -35,7 +35,6 @@ package pcs
 //@   ensures[first] err == nil ==> r != nil && (exists k :: 0 <= k && k < len(extns) && seq(extns[k].Id) == seq(oid)
 //@ |       && (forall j :: 0 <= j && j < k ==> !(seq(extns[j].Id) == seq(oid))) && seq(r.Value) == seq(extns[k].Value) && r.Value == extns[k].Value)
 //@   ensures[none] err != nil ==> (forall j :: 0 <= j && j < len(extns) ==> !(seq(extns[j].Id) == seq(oid)))
-//@   loop 0: invariant forall j :: 0 <= j && j <= rangeindex ==> !(seq(extns[j].Id) == seq(oid))
 
 //@ func extractTcbExtension(tcbExtension, tcb) (err)
 //@   requires tcb != nil
